@@ -126,7 +126,26 @@ def _simple_arg(expr):
     if isinstance(expr, ast.Subscript):
         return _simple_arg(expr.value) and isinstance(
             expr.slice, (ast.Constant, ast.Name))
+    if isinstance(expr, ast.Tuple) and expr.elts:
+        # a record built for the call from plain pieces
+        return all(_simple_arg(e) and not isinstance(e, ast.Tuple)
+                   for e in expr.elts)
     return False
+
+
+class _Project(ast.NodeTransformer):
+    """(a, b, c)[1]  ->  b   (a record built and read back by position)."""
+
+    def visit_Subscript(self, node):
+        node = self.generic_visit(node)
+        if isinstance(node.value, ast.Tuple) and isinstance(
+                node.slice, ast.Constant) and isinstance(
+                    node.slice.value, int) and not isinstance(
+                        node.slice.value, bool) and \
+                0 <= node.slice.value < len(node.value.elts) and not any(
+                    isinstance(e, ast.Starred) for e in node.value.elts):
+            return node.value.elts[node.slice.value]
+        return node
 
 
 class _Rename(ast.NodeTransformer):
@@ -318,6 +337,48 @@ def _split_parallel(stmts):
                 ast.fix_missing_locations(new)
                 out.append(new)
             continue
+        # a, b = (X, Y) if C else (a, b)   ->   if C: a = X ; b = Y
+        # (a helper returning a pair, folded at its call site): each arm is
+        # a display of the same arity whose elements either are the target
+        # itself (nothing to do) or read none of the targets
+        if isinstance(st, ast.Assign) and len(st.targets) == 1 and \
+                isinstance(st.targets[0], ast.Tuple) and \
+                all(isinstance(t, ast.Name) for t in st.targets[0].elts) \
+                and isinstance(st.value, ast.IfExp) and \
+                isinstance(st.value.body, ast.Tuple) and \
+                isinstance(st.value.orelse, ast.Tuple) and \
+                len(st.value.body.elts) == len(st.value.orelse.elts) == \
+                len(st.targets[0].elts) and not any(
+                    isinstance(n, ast.Call)
+                    for n in ast.walk(st.value.test)):
+            names = [t.id for t in st.targets[0].elts]
+            arms = []
+            fine = len(set(names)) == len(names)
+            for arm in (st.value.body, st.value.orelse):
+                block = []
+                for name, val in zip(names, arm.elts):
+                    if isinstance(val, ast.Name) and val.id == name:
+                        continue
+                    if set(n.id for n in ast.walk(val)
+                           if isinstance(n, ast.Name)) & set(names):
+                        fine = False
+                    new = ast.Assign(targets=[ast.Name(id=name,
+                                                       ctx=ast.Store())],
+                                     value=val)
+                    ast.copy_location(new, st)
+                    ast.fix_missing_locations(new)
+                    block.append(new)
+                arms.append(block)
+            if fine and (arms[0] or arms[1]):
+                test = st.value.test
+                if not arms[0]:
+                    test = ast.UnaryOp(op=ast.Not(), operand=test)
+                    arms = [arms[1], []]
+                new = ast.If(test=test, body=arms[0], orelse=arms[1])
+                ast.copy_location(new, st)
+                ast.fix_missing_locations(new)
+                out.append(new)
+                continue
         if isinstance(st, ast.Assign) and len(st.targets) == 1 and \
                 isinstance(st.targets[0], ast.Tuple) and \
                 isinstance(st.value, ast.Tuple) and \
@@ -1303,6 +1364,13 @@ class Inliner(object):
                     return node
                 from . import norm as N
                 new = N.subst(copy.deepcopy(expr), bound)
+                if any(isinstance(a, ast.Tuple) for a in bound.values()):
+                    new = _Project().visit(new)
+                    whole = set(ast.unparse(a) for a in bound.values()
+                                if isinstance(a, ast.Tuple))
+                    if any(isinstance(n, ast.Tuple) and
+                           ast.unparse(n) in whole for n in ast.walk(new)):
+                        return node     # the record is used as a whole
                 for sub in ast.walk(new):
                     ast.copy_location(sub, node)
                 Expand.changed = True
